@@ -7,6 +7,7 @@
   (the latter tied in T17).
 -/
 import Gen.Src
+import Gen.SrcC04
 import CRModel.Occupancy
 namespace CR.Occ
 
@@ -198,3 +199,284 @@ theorem tie_scenario_states_chk (obs : List (Nat × Obst)) (t : Int) :
     exact ⟨l, hl, by simp [statesAtChk, show ¬ t < 0 by omega], hm⟩
 
 end CR.Occ
+
+/-! ## second part: the functions translated by harness/translate/src_c04.py (module Gen.SrcC04) -/
+namespace CR.Occ
+open CR.PyC04
+
+/-! ### per-obstacle dispatch of the remaining obstacle classes (scenario/obstacle.py) -/
+
+/-- `StaticObstacle.occupancy_at_time(t)` of the current source: `Occupancy(t, initial occupancy shape)` for EVERY `t`. -/
+theorem tie_static_occupancy (tInit t : Int) :
+    Gen.StaticObstacle_occupancy_at_time t = (occupancyAt (.static tInit) t).map (fun o => (t, o)) := by
+  simp [Gen.StaticObstacle_occupancy_at_time, occupancyAt, occupancy, Id.run, pure]
+
+theorem tie_static_state (tInit t : Int) : Gen.StaticObstacle_state_at_time t = stateAt (.static tInit) t := by
+  simp [Gen.StaticObstacle_state_at_time, stateAt, Id.run, pure]
+
+/-- `EnvironmentObstacle.occupancy_at_time(t)`: `Occupancy(t, the bare obstacle shape)`. -/
+theorem tie_environment_occupancy (t : Int) :
+    Gen.EnvironmentObstacle_occupancy_at_time t = (occupancyAt .environment t).map (fun o => (t, o)) := by
+  simp [Gen.EnvironmentObstacle_occupancy_at_time, occupancyAt, occupancy, Id.run, pure]
+
+theorem tie_phantom_state (p : Option (List TS)) (t : Int) : Gen.PhantomObstacle_state_at_time = stateAt (.phantom p) t := by
+  simp [Gen.PhantomObstacle_state_at_time, stateAt, Id.run, pure]
+
+/-! ### `Prediction.occupancy_at_time_step` and the occupancy set of a trajectory prediction (prediction/prediction.py) -/
+
+theorem firstIdxFrom_eq_findIdx {α : Type} (p q : α → Bool) (h : ∀ a, p a = q a) :
+    ∀ (l : List α) (k : Nat), firstIdxFrom p l k = findIdx q l k
+  | [], _ => rfl
+  | a :: as, k => by
+    unfold firstIdxFrom findIdx
+    rw [h a, firstIdxFrom_eq_findIdx p q h as (k + 1)]
+
+/-- `Prediction.occupancy_at_time_step(t)` of the current source returns the FIRST stored occupancy whose time stamp contains
+    `t` (an int by equality, an Interval by closed containment — the translated `Interval.contains` of Gen.Src, tied in T16),
+    `None` when the loop runs to its end. -/
+theorem tie_prediction_occupancy (occs : List TS) (t : Int) :
+    Gen.Prediction_occupancy_at_time_step occs t = .ok (findIdx (fun o => o.contains t) occs 0) := by
+  unfold Gen.Prediction_occupancy_at_time_step
+  simp only [CR.Py.assert, if_true, bind, Except.bind, firstIdx]
+  rw [firstIdxFrom_eq_findIdx _ (fun o => o.contains t) ?h]
+  · cases findIdx (fun o => o.contains t) occs 0 <;> rfl
+  case h =>
+    intro o
+    cases o with
+    | step s =>
+      by_cases h : s = t
+      · simp [tsIsInterval, tsIsInt, tsInt, TS.contains, h]
+      · have h' : ¬ t = s := fun e => h e.symm
+        simp [tsIsInterval, tsIsInt, tsInt, TS.contains, h, h']
+    | ival lo hi =>
+      simp [tsIsInterval, tsIsInt, tsInterval, TS.contains, Gen.Interval_contains_num, Id.run, pure, Rat.intCast_le_intCast]
+
+/-- … which is the model's answer for a set-based prediction. -/
+theorem tie_prediction_set_based (occs : List TS) (t : Int) :
+    (Gen.Prediction_occupancy_at_time_step (Gen.SetBasedPrediction_occupancy_set occs) t).map (·.map Occ.stored)
+      = .ok (predOccAt (.setBased occs) t) := by
+  rw [show Gen.SetBasedPrediction_occupancy_set occs = occs from rfl, tie_prediction_occupancy]
+  rfl
+
+/-- what `_create_occupancy_set` makes of one state -/
+def occOfState (wb : Option (List Rat)) (st : TState) : Int × Region :=
+  (st.time_step, ⟨if wb.isSome then .members else .own, st.idx,
+    if st.heading = .absent then .atan2 "velocity_y" "velocity" else st.heading⟩)
+
+/-- `TrajectoryPrediction._create_occupancy_set` of the current source: one occupancy per state, in the order of the state list;
+    occupancy `i` carries the time step of state `i` and the region obtained by placing the shape at state `i` itself; a state
+    without `orientation` is placed with `atan2(velocity_y, velocity)` (these two attributes, in this order); with wheelbase
+    lengths the member shapes are placed instead (outside the property's quantifier, kept for completeness). -/
+theorem tie_create_occupancy_set (wb : Option (List Rat)) (states : List TState) :
+    Gen.TrajectoryPrediction_create_occupancy_set wb states = states.map (occOfState wb) := by
+  unfold Gen.TrajectoryPrediction_create_occupancy_set
+  simp only [Id.run, pure]
+  rw [show (fun (acc : List (Int × Region)) (state : TState) => _) = fun acc state => acc ++ [occOfState wb state] from ?_]
+  · rw [foldl_append_all]; simp
+  · funext acc st
+    obtain ⟨i, t, h⟩ := st
+    cases wb <;> cases h <;>
+      simp [occOfState, TState.hasOrientation, copyState, regionOf, regionTrailer, occupancy]
+
+theorem tie_trajectory_occupancy_set (wb : Option (List Rat)) (states : List TState) :
+    Gen.TrajectoryPrediction_occupancy_set wb states = states.map (occOfState wb) := by
+  unfold Gen.TrajectoryPrediction_occupancy_set
+  simp only [Id.run, pure]
+  exact tie_create_occupancy_set wb states
+
+/-- the states of a trajectory whose i-th state carries time step `ts[i]` (numbered from `i`) -/
+def statesFrom (h : Nat → Heading) : List Int → Nat → List TState
+  | [], _ => []
+  | t :: r, i => ⟨i, t, h i⟩ :: statesFrom h r (i + 1)
+
+/-- The model's occupancy set of a trajectory prediction (`occSetOf`: entry `i` = time step of state `i`, shape placed at
+    state `i`) is what the translated `_create_occupancy_set` produces, entry by entry. -/
+theorem tie_occSetOf (ts : List Int) (h : Nat → Heading) :
+    (Gen.TrajectoryPrediction_create_occupancy_set none (statesFrom h ts 0)).map (fun e => (TS.step e.1, Occ.placed e.2.idx))
+      = occSetOf ts := by
+  rw [tie_create_occupancy_set, occSetOf]
+  generalize 0 = i
+  induction ts generalizing i with
+  | nil => rfl
+  | cons t r ih => simp [statesFrom, occSetFrom, occOfState, ih (i + 1)]
+
+/-! ### scenario level (scenario/scenario.py) -/
+
+/-- `Scenario.obstacles` of the current source chains the four dictionaries in the model's order. -/
+theorem tie_scenario_obstacles (s : Scn) : Gen.Scenario_obstacles s = s.obstacles := by
+  simp [Gen.Scenario_obstacles, Scn.obstacles, chain4, values, Id.run, pure]
+
+theorem tie_scenario_role_lists (s : Scn) :
+    Gen.Scenario_static_obstacles s = s.st ∧ Gen.Scenario_dynamic_obstacles s = s.dy ∧
+    Gen.Scenario_phantom_obstacle s = s.ph ∧ Gen.Scenario_environment_obstacle s = s.en := by
+  simp [Gen.Scenario_static_obstacles, Gen.Scenario_dynamic_obstacles, Gen.Scenario_phantom_obstacle,
+    Gen.Scenario_environment_obstacle, values, Id.run, pure]
+
+theorem findOpt_isSome_eq_any {α : Type} (p : α → Bool) (l : List α) : (l.find? p).isSome = l.any p := by
+  induction l with
+  | nil => rfl
+  | cons a as ih => by_cases h : p a <;> simp [List.find?, h, ih]
+
+/-- `Scenario.obstacle_by_id(i)` of the current source = the model's `Scn.byId`: static, dynamic, phantom, environment
+    dictionaries in this order, `None` when none has the id. -/
+theorem tie_scenario_obstacle_by_id (s : Scn) (i : Nat) : Gen.Scenario_obstacle_by_id s i = .ok (s.byId i) := by
+  unfold Gen.Scenario_obstacle_by_id Scn.byId Scn.obstacles
+  simp only [CR.Py.assert, if_true, bind, Except.bind, hasKey, getKey, List.find?_append, pure, Except.pure]
+  simp only [← findOpt_isSome_eq_any]
+  cases h1 : s.st.find? (fun x => x.1 == i) <;> cases h2 : s.dy.find? (fun x => x.1 == i) <;>
+    cases h3 : s.ph.find? (fun x => x.1 == i) <;> cases h4 : s.en.find? (fun x => x.1 == i) <;> simp
+
+/-! #### `Scenario.obstacles_by_position_intervals` (four role passes, each a filtered loop) -/
+
+theorem foldl_congr_mem {α β : Type} (f g : β → α → β) (l : List α) (h : ∀ b, ∀ a ∈ l, f b a = g b a) (b : β) :
+    l.foldl f b = l.foldl g b := by
+  induction l generalizing b with
+  | nil => rfl
+  | cons a as ih =>
+    simp only [List.foldl_cons]
+    rw [h b a (by simp)]
+    exact ih (fun b a ha => h b a (by simp [ha])) _
+
+theorem filter_filter_map_eq_filterMap {α β : Type} (q p : α → Bool) (f : α → β) (l : List α) :
+    ((l.filter q).filter p).map f = l.filterMap (fun x => if q x && p x then some (f x) else none) := by
+  induction l with
+  | nil => rfl
+  | cons a as ih =>
+    cases hq : q a <;> cases hp : p a <;>
+      simp only [List.filter_cons, List.filterMap_cons, hq, hp, ih, if_true, Bool.false_eq_true, if_false, List.map_cons,
+        Bool.and_self, Bool.and_false, Bool.and_true]
+
+theorem filterMap_congr_mem {α β : Type} (f g : α → Option β) (l : List α) (h : ∀ x ∈ l, f x = g x) :
+    l.filterMap f = l.filterMap g := by
+  induction l with
+  | nil => rfl
+  | cons a as ih =>
+    simp only [List.filterMap_cons, h a (by simp)]
+    rw [ih (fun x hx => h x (by simp [hx]))]
+
+/-- one role pass as the translator renders it (`if ROLE in obstacle_role: for obstacle in self.<role list>: <body>`), for any
+    loop body that appends the obstacle exactly when `P` holds, is the model's `posPass` of that role appended to what was
+    collected before -/
+theorem pass_eq (obs : List (Nat × Obst)) (ctr : Nat → Option (Rat × Rat)) (ix iy : CR.Iv.I) (roles : List Role) (t : Int)
+    (r : Role) (P : Nat × Obst → Bool) (body : List (Nat × Obst) → Nat × Obst → List (Nat × Obst)) (acc : List (Nat × Obst))
+    (hbody : ∀ acc o, o ∈ obs → o.2.role = r → body acc o = if P o then acc ++ [o] else acc)
+    (hP : ∀ o, o ∈ obs → o.2.role = r →
+      P o = (decide ((r = .dynamic ∨ r = .phantom) → (occupancyAt o.2 t).isSome) && centreIn ix iy (ctr o.1))) :
+    (if decide (r ∈ roles) then (obs.filter (fun o => decide (o.2.role = r))).foldl body acc else acc).map (·.1)
+      = acc.map (·.1) ++ posPass obs ctr ix iy roles t r := by
+  by_cases hr : r ∈ roles
+  · simp only [hr, decide_true, if_true, posPass]
+    rw [foldl_congr_mem body (fun acc o => if P o then acc ++ [o] else acc) _
+          (fun b a ha => hbody b a (List.mem_filter.1 ha).1 (by simpa using (List.mem_filter.1 ha).2)),
+        foldl_append_filter P (fun o => o)]
+    simp only [List.map_append, List.map_id']
+    congr 1
+    rw [filter_filter_map_eq_filterMap]
+    apply filterMap_congr_mem
+    intro x hx
+    by_cases hrole : x.2.role = r
+    · rw [hP x hx hrole]
+      simp only [Bool.and_eq_true, decide_eq_true_eq]
+    · simp [hrole]
+  · simp [hr, posPass]
+
+/-- `Scenario.obstacles_by_position_intervals([ix, iy], roles, t)` of the current source lists exactly the ids of the model's
+    `byPosition`, in the same order: four passes (dynamic, phantom, static, environment — each only when its role was asked
+    for), dynamic and phantom obstacles need an occupancy at `t`, a shape without `center` is listed unconditionally,
+    otherwise the centre must lie in both closed intervals (`Interval.contains` as translated in Gen.Src).  Static obstacles
+    always offer a centre (their initial position). -/
+theorem tie_scenario_by_position (obs : List (Nat × Obst)) (ctr : Nat → Option (Rat × Rat)) (ix iy : CR.Iv.I)
+    (roles : List Role) (t : Int) (hst : ∀ x ∈ obs, x.2.role = .static → (ctr x.1).isSome) :
+    (Gen.Scenario_obstacles_by_position_intervals obs ctr ix iy roles t).map (·.1) = byPosition obs ctr ix iy roles t := by
+  unfold Gen.Scenario_obstacles_by_position_intervals byPosition
+  simp only [Id.run, pure]
+  rw [pass_eq obs ctr ix iy roles t .environment (fun o => centreIn ix iy (ctr o.1)),
+      pass_eq obs ctr ix iy roles t .static (fun o => centreIn ix iy (ctr o.1)),
+      pass_eq obs ctr ix iy roles t .phantom (fun o => (occupancyAt o.2 t).isSome && centreIn ix iy (ctr o.1)),
+      pass_eq obs ctr ix iy roles t .dynamic (fun o => (occupancyAt o.2 t).isSome && centreIn ix iy (ctr o.1))]
+  · simp
+  case hP => intro o ho hr; simp
+  case hP => intro o ho hr; simp
+  case hP => intro o ho hr; simp
+  case hP => intro o ho hr; simp
+  all_goals (intro acc o ho hr)
+  all_goals (cases hc : ctr o.1 <;> cases hocc : occupancyAt o.2 t <;>
+    first
+    | (simp [centreIn, hc, hocc, Gen.Interval_contains_num, CR.Iv.contains, Id.run, pure]; done)
+    | (have h := hst o ho hr; simp [hc] at h))
+
+end CR.Occ
+
+/-! ### placement geometry: `rotate_translate_local` of the four shape classes (geometry/shape.py) = CRModel/Place.lean -/
+namespace CR.Place
+open CR.Rigid CR.Iv CR.PyC04
+
+/-- `Rectangle.rotate_translate_local`: centre moved by the translation, orientation wrapped into [-τ, τ]; no assertion. -/
+theorem tie_rect_place (τ l w : Rat) (ctr : Pt) (θ : Rat) (t : Pt) (a c s : Rat) :
+    Gen.Rectangle_rotate_translate_local τ l w ctr θ t a = place c s a τ t (.rect l w ctr θ) := by
+  simp [Gen.Rectangle_rotate_translate_local, place, Id.run, pure]
+
+/-- `Circle.rotate_translate_local`: centre moved by the translation; the angle is not looked at. -/
+theorem tie_circ_place (τ r : Rat) (ctr t : Pt) (a c s : Rat) :
+    Gen.Circle_rotate_translate_local r ctr t a = .ok (place c s a τ t (.circ r ctr)) := by
+  simp [Gen.Circle_rotate_translate_local, place, CR.Py.assert, bind, Except.bind, pure, Except.pure]
+
+theorem about_zero_add (c s : Rat) (g t p : Pt) : Pt.add (about c s g ⟨0, 0⟩ p) t = about c s g t p := by
+  simp [about, Pt.add, Rat.add_zero]
+
+/-- `Polygon.rotate_translate_local`: every vertex rotated about the polygon's AREA CENTROID (shapely `origin="centroid"`, angle
+    in radians), then moved by the translation; AssertionError for an angle outside [-τ, τ]. -/
+theorem tie_poly_place (τ : Rat) (cosf sinf : Rat → Rat) (vs : List Pt) (t : Pt) (a : Rat) :
+    Gen.Polygon_rotate_translate_local τ cosf sinf vs t a = placeChk (cosf a) (sinf a) a τ t (.poly vs) := by
+  unfold Gen.Polygon_rotate_translate_local placeChk
+  by_cases h : validOrientation τ a = true
+  · simp [h, CR.Py.assert, bind, Except.bind, pure, Except.pure, place, shapelyRotate, addAll, List.map_map,
+      Function.comp_def, about_zero_add]
+  · simp [h, CR.Py.assert, bind, Except.bind]
+
+theorem placeList_eq_map (c s a τ : Rat) (t : Pt) : ∀ ss : List Shape, place.placeList c s a τ t ss = ss.map (place c s a τ t)
+  | [] => rfl
+  | x :: xs => by simp [place.placeList, placeList_eq_map c s a τ t xs]
+
+/-- `ShapeGroup.rotate_translate_local`: every member placed by ITS OWN `rotate_translate_local` with the same translation and
+    angle, in order; AssertionError for an angle outside [-τ, τ]. -/
+theorem tie_group_place (τ : Rat) (cosf sinf : Rat → Rat) (ss : List Shape) (t : Pt) (a : Rat) :
+    Gen.ShapeGroup_rotate_translate_local τ cosf sinf ss t a = placeChk (cosf a) (sinf a) a τ t (.group ss) := by
+  unfold Gen.ShapeGroup_rotate_translate_local placeChk
+  by_cases h : validOrientation τ a = true
+  · simp only [h, CR.Py.assert, if_true, bind, Except.bind, pure, Except.pure]
+    try rw [CR.Occ.foldl_append_all]
+    simp [place, placeList_eq_map]
+  · simp [h, CR.Py.assert, bind, Except.bind]
+
+/-- for an admissible orientation (within [-τ, τ], what `is_valid_orientation` demands of every angle) the checked placement is
+    the placement the P04 theorems are about, for every shape kind -/
+theorem placeChk_valid (c s a τ : Rat) (t : Pt) (sh : Shape) (h : validOrientation τ a = true) :
+    placeChk c s a τ t sh = .ok (place c s a τ t sh) := by
+  cases sh <;> simp [placeChk, h]
+
+
+/-- `occupancy_shape_from_state(shape, state)` for an EXACT state is ONE call `shape.rotate_translate_local(state.position,
+    state.orientation)` — position as translation, orientation as angle, in this order; the uncertain branches are not taken. -/
+theorem tie_occupancy_shape_exact (τ : Rat) (cosf sinf : Rat → Rat) (sh : Shape) (pos : Pt) (ori : Rat) :
+    Gen.occupancy_shape_from_state_exact τ cosf sinf sh pos ori = placeChk (cosf ori) (sinf ori) ori τ pos sh := by
+  unfold Gen.occupancy_shape_from_state_exact
+  cases placeChk (cosf ori) (sinf ori) ori τ pos sh <;> rfl
+
+/-- `occupancy_shape_from_state` for an UNCERTAIN pose of a rectangle / polygon shape (orientation interval [olo, ohi], position
+    region of rectangle / polygon kind) as the CURRENT source computes it: the model's `enclose` — the rectangle
+    `(ls + lv + |(1 - cos δ_l)·lv - sin δ_l·wv|) × (ws + wv + |(1 - cos δ_w)·wv - sin δ_w·lv|)` with `δ_l = min(Δψ, arctan(wv/lv))`,
+    `δ_w = min(Δψ, arctan(lv/wv))`, `Δψ` half the interval length, centred at region centre + shape centre, oriented along the
+    middle of the interval; the position region is measured after turning it by MINUS that middle orientation.  This is the
+    formula `C04_enclosure` (CRProps/C04.lean) is about: `C04_enclose_encloses`. -/
+theorem tie_uncertain_enclosure (cosf sinf arctanf : Rat → Rat) (lv wv : Rat) (sc : Pt) (olo ohi ls ws : Rat) (pc : Pt)
+    (hl : lv ≠ 0) (hw : wv ≠ 0) :
+    Gen.occupancy_shape_from_state_uncertain cosf sinf arctanf lv wv sc olo ohi ls ws pc =
+      .ok (enclose (cosf (min ((1 / 2) * (ohi - olo)) (arctanf (wv / lv)))) (sinf (min ((1 / 2) * (ohi - olo)) (arctanf (wv / lv))))
+            (cosf (min ((1 / 2) * (ohi - olo)) (arctanf (lv / wv)))) (sinf (min ((1 / 2) * (ohi - olo)) (arctanf (lv / wv))))
+            lv wv ls ws (Pt.add pc sc) (olo + (1 / 2) * (ohi - olo))) := by
+  unfold Gen.occupancy_shape_from_state_uncertain
+  simp only [CR.Py.div, hl, hw, if_false, extentOf, absR, absQ, enclose, bind, Except.bind, pure, Except.pure]
+  first | rfl | (congr 1) | (simp; exact ⟨rfl, rfl⟩)
+
+end CR.Place
